@@ -71,6 +71,10 @@ class _Act(OpDef):
         out.append({"a": [3], "via": "M"})
         return out
 
+    def smooth_at_zero(self, args):
+        # tanh and sigmoid are smooth at 0 (the relu family has its kink there)
+        return self.name in ("tanh", "sigmoid") and int(np.prod(args["a"], dtype=int)) in (1, 2, 3)
+
     def inputs(self, args):
         return [Inp("a", args["a"])]
 
@@ -248,6 +252,9 @@ class _PairLoss(OpDef):
             for red in RED:
                 out.append({"shape": L(s), "via": "M", "red": red})
         return out
+
+    def smooth_at_zero(self, args):
+        return self.name == "mse_loss"      # a prediction that is exactly 0 (the exponentials of the BCE family branch too much)
 
     def illegal_configs(self, tier):
         # mismatching shapes; a reduction that is none of 'none' / 'mean' / 'sum' (it must not silently act as one of them)
